@@ -11,8 +11,8 @@ def expectedC04 : List (String × String) := [
   ("comparison.Comparable", "8a588fbb99818892"),
   ("comparison._itemgetter_with_default", "6ab67f1857478e78"),
   ("comparison._typestr", "8ffeb3d6c9e56621"),
-  ("comparison.comparable_itemgetter", "de3244b3535f1528"),
-  ("file:comparison.py", "17971f67ee946013"),
+  ("comparison.comparable_itemgetter", "4dfedddaf612993a"),
+  ("file:comparison.py", "c46d05a1308c92ce"),
   ("file:compat.py", "2a259e16acd200bc"),
   ("file:config.py", "142bde514c82c29d"),
   ("file:transform/joins.py", "bb9e0069e4d5e3a6"),
